@@ -344,7 +344,12 @@ def pack_union(
     packer_arg_types: dict[str, list[type]] = {}
     for type_arg in args:
         packer = PackerRegistry.get(
-            spec.copy(type=type_arg, expression="value", owner=spec.type)
+            spec.copy(
+                type=type_arg,
+                expression="value",
+                owner=spec.type,
+                could_be_none=True,
+            )
         )
         if packer not in packers:
             if packer == "value":
